@@ -703,9 +703,18 @@ class Folder:
             seq = args[0]
             items = seq.items if isinstance(seq, (_Gen, _Unordered)) else self._iter(seq, e, ordered_use=False)
             key = kwargs.get("key")
+            rev = bool(kwargs.get("reverse", False))
             if key is None:
-                return sorted(items, key=lambda x: x if isinstance(x, (str, int, float, tuple)) else repr(x))
-            return sorted(items, key=lambda x: self._callv(key, [x]))
+                return sorted(items, key=lambda x: x if isinstance(x, (str, int, float, tuple)) else repr(x), reverse=rev)
+            keyed = [(self._callv(key, [x]), x) for x in items]
+            if isinstance(seq, (USet, _Unordered)) or (isinstance(seq, _Gen) and getattr(seq, "unordered", False)):
+                ks = [k for k, _ in keyed]
+                if len(set(map(repr, ks))) != len(ks):
+                    # sorted() is stable: elements that tie under the key keep the iteration order of the set
+                    ties = sorted({repr(k) for k in ks if ks.count(k) > 1})[:3]
+                    self.hazard(e, f"sorted(<set>, key=...) with ties under the key (keys {ties}): tied elements keep the set's iteration order")
+            # canonical tie-break by the element itself, so that the folded value is one definite representative
+            return [x for _, x in sorted(keyed, key=lambda kx: (kx[0], repr(kx[1])), reverse=rev)]
         if name in ("list", "tuple"):
             if not args:
                 return [] if name == "list" else ()
@@ -757,6 +766,10 @@ class Folder:
             return self._apply_lambda(fn, args)
         if isinstance(fn, FuncVal):
             return self._apply(fn, args, {})
+        if isinstance(fn, tuple) and len(fn) == 2 and fn[0] == "builtin" and fn[1] in ("len", "str", "repr", "int", "bool"):
+            return {"len": len, "str": str, "repr": repr, "int": int, "bool": bool}[fn[1]](*args)
+        if isinstance(fn, tuple) and len(fn) == 2 and fn[0] == "extern" and fn[1] in ("builtins.str.casefold", "str.casefold", "str.lower", "str.upper"):
+            return getattr(str, fn[1].rsplit(".", 1)[-1])(*args)
         raise TypeError("not callable in the folder")
 
     # ------------------------------------------------------------------ function bodies
